@@ -336,6 +336,8 @@ def run_property(prop_id, tier, seed, jobs):
     args = [(prop_id, tier, seed, k, nshards) for k in range(nshards)]
     if getattr(mod, "NEEDS_PANDAPIPES", True):
         warmup()
+    if hasattr(mod, "warmup"):
+        mod.warmup()
     if nshards == 1 or jobs == 1:
         results = [_worker(a) for a in args]
     else:
